@@ -16,6 +16,10 @@ CHECKS = {
             'termination all outcome accessors, the future, listener notifications, cleanups, closedness and the stepping task '
             'are compared with the outcome the program text denotes', '5 C02',
             'deterministic simulation: seeded schedule search, outcome-agreement oracle against a reference model'),
+    'C03': ('fault_enumeration', 'for every seeded (program, scenario) the fault space {user-code site} x {occurrence of that site in the '
+            'fault-free run} is enumerated completely, one injected fault per simulated run; oracle by site class (construction, '
+            'listener, pause/play hook, late callback, everything else fatal)', '5 C03',
+            'deterministic simulation: complete fault-site enumeration per seeded program and scenario'),
     'C04': ('exploration', 'seeded search over programs x sequences of up to K control requests containing a kill, at every loop '
             'position, in every order at one position, from listener notifications and from inside steps, plus future '
             'cancellation; every live end configuration is probed with a further kill', '5 C04',
@@ -42,7 +46,6 @@ NOT_APPLICABLE = [
 ]
 
 PENDING = {
-    'C03': 'check under construction in this session (fault enumeration over hook sites)',
     'C07': 'check under construction in this session',
     'C08': 'check under construction in this session',
     'C10': 'check under construction in this session',
